@@ -4,10 +4,11 @@ from .common import bump
 ID = "C03"
 AREA = "c03"
 LEAN_PROPS = "Litep2pVerif.Props.C03"
-THEOREMS = ["msg_roundtrip", "varint_roundtrip", "framing_transparent", "framing_writer_exact",
+THEOREMS = ["msg_roundtrip", "varint_roundtrip", "framing_transparent", "framing_progress", "framing_writer_exact",
             "negotiate_terminates", "negotiate_confluent", "negotiate_agree", "into_inner_safe",
-            "webrtc_agree_partial", "fallback_reported_as_main"]
-CONSTS = ["MSS_MAX_PROTOCOLS", "MSS_MAX_LEN_BYTES", "MSS_MAX_FRAME_SIZE_MINUS"]
+            "webrtc_safe", "webrtc_agree", "fallback_reported_as_main"]
+CONSTS = ["MSS_MAX_PROTOCOLS", "MSS_MAX_LEN_BYTES", "MSS_MAX_FRAME_SIZE_MINUS", "MSS_MSG_MULTISTREAM_1_0",
+          "MSS_MSG_PROTOCOL_NA", "MSS_MSG_LS", "MSS_PROTO_MULTISTREAM_1_0"]
 _P = "src/multistream_select/protocol.rs"
 _L = "src/multistream_select/length_delimited.rs"
 CONST_TABLE = [
@@ -16,41 +17,70 @@ CONST_TABLE = [
     # MAX_FRAME_SIZE = (1 << (MAX_LEN_BYTES * 8 - MAX_LEN_BYTES)) - 1 : the anchor is the whole formula
     ("MSS_MAX_FRAME_SIZE_MINUS", _L,
      r"const MAX_FRAME_SIZE: u16 = \(1 << \(MAX_LEN_BYTES \* 8 - MAX_LEN_BYTES\)\) - ([^;]+);", 1),
+    # the literal byte strings of the protocol (fifth element: the group is a Rust byte-string literal)
+    ("MSS_MSG_MULTISTREAM_1_0", _P, r'const MSG_MULTISTREAM_1_0: &\[u8\] = b"((?:[^"\\]|\\.)*)";',
+     b"/multistream/1.0.0\n", "bytes"),
+    ("MSS_MSG_PROTOCOL_NA", _P, r'const MSG_PROTOCOL_NA: &\[u8\] = b"((?:[^"\\]|\\.)*)";', b"na\n", "bytes"),
+    ("MSS_MSG_LS", _P, r'const MSG_LS: &\[u8\] = b"((?:[^"\\]|\\.)*)";', b"ls\n", "bytes"),
+    ("MSS_PROTO_MULTISTREAM_1_0", _P,
+     r'const PROTO_MULTISTREAM_1_0: Protocol = Protocol\(Bytes::from_static\(b"((?:[^"\\]|\\.)*)"\)\);',
+     b"/multistream/1.0.0", "bytes"),
 ]
 MANIFEST = {
     "text": "Lean 4 theorems about executable models of the multistream-select code: Message encode/decode round trip "
             "(msg_roundtrip, varint_roundtrip); the LengthDelimited reader returns exactly the frames written and consumes "
-            "exactly their bytes for every chunking and Pending placement, and the writer loses nothing "
-            "(framing_transparent, framing_writer_exact); the composition of DialerSelectFuture (V1 and V1Lazy, incl. "
-            "Negotiated::expecting) and ListenerSelectFuture over two FIFO channels terminates under an explicit measure, is "
-            "confluent, and every maximal execution ends with both sides reporting the dialer's first supported name or "
-            "both failing (negotiate_terminates, negotiate_confluent, negotiate_agree, into_inner_safe); for the message-based "
-            "variant only the safety half is proved (webrtc_agree_partial: the listener accepts only supported names, the "
-            "dialer succeeds only on the name it proposes; first-preference agreement of the pair is covered by the "
-            "correspondence run and the oracle, not by a theorem); fallback names are reported as the main protocol "
-            "(fallback_reported_as_main, model of the four-line mapping only). Tie: the real futures run against each other and against scripted raw peers "
-            "over an in-memory duplex with scripted chunking/Pending, compared byte for byte with the model.",
+            "exactly their bytes for every chunking and Pending placement, returns every frame once the carrier has made as "
+            "many non-Pending deliveries as the frames have bytes (measure: frame bytes in flight), and the writer loses "
+            "nothing (framing_transparent, framing_progress, framing_writer_exact); the composition of DialerSelectFuture (V1 "
+            "and V1Lazy, incl. Negotiated::expecting) and ListenerSelectFuture over two FIFO channels terminates under an "
+            "explicit measure, is confluent, and every maximal execution ends with both sides reporting the dialer's first "
+            "supported name or both failing (negotiate_terminates, negotiate_confluent, negotiate_agree, into_inner_safe); the "
+            "message-based pair WebRtcDialerState::{propose, propose_next_fallback, register_response} / "
+            "webrtc_listener_negotiate ends, for every main name (<= MAX_FRAME_SIZE-23 bytes), fallback list (<= MAX_FRAME_SIZE-3 "
+            "bytes each), listener list and every grouping of the messages into payloads, with Succeeded(p)/Accepted(p) for the "
+            "first supported name in the order main, fallbacks as given, or with failure/never-accepted (webrtc_agree, by "
+            "induction over the fallback list with encode/decode lemmas of the payload format), and for arbitrary malformed "
+            "payloads the listener accepts only supported names and the dialer succeeds only on the name it proposes "
+            "(webrtc_safe); ProtocolSet::new + report_substream_open report a fallback name to its main protocol with "
+            "fallback=Some(name), a main name as itself, anything else as unsupported (fallback_reported_as_main). Tie: the "
+            "real futures run against each other, against scripted raw peers and against the reference implementation "
+            "multistream-select 0.13.0 in either role (both versions) over an in-memory duplex with scripted chunking/Pending; "
+            "the message-based functions and the real ProtocolSet::report_substream_open are driven through the adapter; all "
+            "compared with the model; the literal byte strings (/multistream/1.0.0\\n, na\\n, ls\\n, the header protocol "
+            "name) and the numeric limits are extracted from the Rust sources on every run.",
     "note": "Trusted: Lean kernel; axioms propext/Classical.choice/Quot.sound; the hand-written models and their tie (sampled "
-            "differential runs through adapter src/verif/c03.rs); the byte-level composition in Driver/C03.lean; the "
-            "literal header/na/ls strings are tied by the differential run only.",
-    "technique": "Lean 4 proof (invariant + confluence + measure) + model/implementation correspondence check",
+            "differential runs through adapter src/verif/c03.rs and harness/src/local/c03ref.rs); the byte-level composition "
+            "in Driver/C03.lean; wPair/the adapter's wpair as the rendering of transport/webrtc/connection.rs (that file is "
+            "not compiled without the webrtc feature). A fallback name registered under two protocols is resolved by "
+            "HashMap iteration order in ProtocolSet::new: excluded by hypothesis (and answered bad-op by the adapter).",
+    "technique": "Lean 4 proof (invariant + confluence + measure + induction) + model/implementation correspondence check "
+                 "+ reference-implementation differential run",
     "design_ref": "DESIGN.md §7 C03",
 }
 RULE = ("seeded cases of 1-6 operations: enc/dec of grammar-generated and mutated messages; negotiate (real dialer and listener "
         "futures against each other, V1 and V1Lazy, name lists from a grammar with disjoint/nested/long/duplicate/fallback/"
         "invalid names, random chunk sizes incl. 1-byte chunks and Pending injections on all four stream halves, random poll "
         "order, payloads written right after negotiation); dial/listen against a scripted raw peer (well-formed transcripts with "
-        "trailing application bytes, and mutated/truncated ones); the message-based pair and its functions. A case is "
+        "trailing application bytes, and mutated/truncated ones); refneg (the real dialer resp. listener against the "
+        "listener resp. dialer of multistream-select 0.13.0, same scripting); the message-based pair and its functions "
+        "(names at the exact length bounds); report (real ProtocolSet with 0-4 protocols and 0-3 fallback names each, "
+        "negotiated name main/fallback/foreign/unknown). A case is "
         "non-trivial if a negotiation succeeded or a message decoded; distinct = distinct (ops, observations) by SHA-256")
 TRUSTED_BASE = ["Lean 4.33 kernel", "axioms: propext, Classical.choice, Quot.sound only",
                 "hand-written models Model/Mss/{Message,Framing,Negotiate,WebRtc}.lean tied to the Rust code by this correspondence run",
-                "adapter /repo/src/verif/c03.rs (in-memory duplex, hand-polled futures), harness, verif.py, checks/c03.py",
+                "adapter /repo/src/verif/c03.rs (in-memory duplex, hand-polled futures), harness (local area c03: "
+                "harness/src/local/c03ref.rs with multistream-select 0.13.0 from the cargo registry), verif.py, checks/c03.py",
                 "Driver/C03.lean byte-level composition (machines + specification-level frame parser + test application)",
                 "unsigned-varint 0.8 decode!/encode modelled by hand (tied by dec/wlisten/wresp on malformed bytes)"]
 ASSUMPTIONS = ["the carrier is a reliable FIFO byte stream that accepts or delivers at least one byte when it is not Pending",
                "V1Lazy: application data written before the confirmation does not itself parse as a multistream-select "
                "message (documented pitfall of Version::V1Lazy); such cases are compared with the model but not judged",
-               "names given to the message-based functions are UTF-8 (ProtocolName is a string type)",
+               "names given to the message-based functions, to ProtocolSet and to the reference implementation are UTF-8 "
+               "(ProtocolName is a string type)",
+               "a fallback name belongs to at most one installed protocol and installed main names are distinct "
+               "(ProtocolSet::new collects into hash maps; otherwise iteration order decides)",
+               "framing_progress: the carrier makes at least as many non-Pending deliveries (>= 1 byte each) as the frames "
+               "have bytes, and the reader is polled again after every Pending",
                "a write to a peer that has dropped its end is accepted and discarded (as TCP does before the reset arrives)"]
 KEEP_PREFIX = 0
 
@@ -172,6 +202,26 @@ def op_negotiate(rng):
             f"dr={script(rng)} dw={script(rng)} lr={script(rng)} lw={script(rng)} order={order}")
 
 
+REF_NAMES = [n for n in BASE if valid_name(n)] + [b"/" + b"N" * 300, b"/" + b"L" * (MAX_FRAME - 2)]
+
+
+def op_refneg(rng):
+    """The real litep2p dialer (listener) against the listener (dialer) of the reference implementation
+    multistream-select 0.13.0 over the same scripted duplex. Names are valid UTF-8 names (the reference takes strings)."""
+    role = rng.choice(["dial", "listen"])
+    ver = rng.choice(["v1", "lazy"])
+    pick = lambda: rng.choice(REF_NAMES[:11]) if rng.random() < 0.85 else rng.choice(REF_NAMES)
+    dialer = [pick() for _ in range(rng.randrange(1, 5))]
+    listener = [pick() for _ in range(rng.randrange(0, 5))]
+    if rng.random() < 0.5:
+        listener.insert(rng.randrange(len(listener) + 1), rng.choice(dialer))
+    if rng.random() < 0.15:
+        dialer = dialer + [rng.choice(dialer)]
+    order = "".join(rng.choice("dl") for _ in range(rng.randrange(1, 12)))
+    return (f"refneg role={role} ver={ver} dialer={hl(dialer)} listener={hl(listener)} dpay={hx(payload(rng))} "
+            f"lpay={hx(payload(rng))} dr={script(rng)} dw={script(rng)} lr={script(rng)} lw={script(rng)} order={order}")
+
+
 def op_scripted(rng):
     """Our side against a raw peer: a well-formed transcript (plus trailing application bytes), or a damaged one."""
     role = rng.choice(["dial", "listen"])
@@ -289,7 +339,8 @@ def wname(rng):
     if r < 0.85:
         return rng.choice(BASE[:11])
     if r < 0.9:
-        return rng.choice(LONG + TOO_LONG + [b"/" + b"q" * (MAX_FRAME - 25), b"/" + b"q" * (MAX_FRAME - 24), b"/" + b"q" * (MAX_FRAME - 5)])
+        return rng.choice(LONG + TOO_LONG + [b"/" + b"q" * (MAX_FRAME - 25), b"/" + b"q" * (MAX_FRAME - 24), b"/" + b"q" * (MAX_FRAME - 5),
+                           b"/" + b"q" * (MAX_FRAME - 23), b"/" + b"q" * (MAX_FRAME - 4)])
     if r < 0.95:
         return rng.choice([b"noslash", b"/a\nb", MULTISTREAM])
     return rng.choice(BASE)
@@ -327,9 +378,10 @@ def ops_webrtc(rng):
             ops.append("wnext")
         else:
             cur = rng.choice([main] + fb)
+            near = rng.choice([cur[:max(1, len(cur) - 1)], cur + b"x", cur[:1], cur + b"/"])     # a prefix / an extension
             choices = [[("header",)], [("header",), ("proto", cur)], [("header",), ("na",)], [("proto", cur)], [("na",)],
                        [("ls",)], [("header",), ("header",)], [("proto", b"/other")], [("protos", [cur])], [],
-                       [("header",), ("na",), ("proto", cur)]]
+                       [("header",), ("na",), ("proto", cur)], [("header",), ("proto", near)], [("proto", near)]]
             p = wmsgs(rng, rng.choice(choices))
             r = rng.random()
             if r < 0.1 and p:
@@ -342,8 +394,57 @@ def ops_webrtc(rng):
     return ops
 
 
+def utf8_name(rng):
+    r = rng.random()
+    if r < 0.8:
+        return rng.choice(BASE[:11])
+    if r < 0.9:
+        return rng.choice(BASE)
+    return b"/" + bytes(rng.choice(b"abc/12.") for _ in range(rng.randrange(0, 4)))
+
+
+def show_installed(installed):
+    return ",".join(";".join(hx(n) for n in [m] + fbs) for m, fbs in installed) if installed else "-"
+
+
+def ops_report(rng):
+    """Install 0-4 protocols with 0-3 fallback names each and report substreams negotiated under main names,
+    fallback names, names of other protocols and unknown names."""
+    installed = []
+    for _ in range(rng.randrange(0, 5)):
+        installed.append((utf8_name(rng), [utf8_name(rng) for _ in range(rng.randrange(0, 4))]))
+    r = rng.random()
+    if r < 0.85:
+        # the common configuration: distinct mains, a fallback name belongs to one protocol
+        seen, clean = set(), []
+        for m, fbs in installed:
+            if m in seen:
+                continue
+            seen.add(m)
+            clean.append((m, fbs))
+        taken = set() if rng.random() < 0.2 else {m for m, _ in clean}    # sometimes a fallback = another main
+        installed = []
+        for m, fbs in clean:
+            keep = []
+            for f in fbs:
+                if f not in taken:
+                    keep.append(f)
+            taken |= set(keep)
+            installed.append((m, keep))
+    ops = []
+    names = [m for m, _ in installed] + [f for _, fbs in installed for f in fbs]
+    for _ in range(rng.randrange(1, 5)):
+        neg = rng.choice(names) if names and rng.random() < 0.8 else utf8_name(rng)
+        ops.append(f"report protos={show_installed(installed)} neg={hx(neg)}")
+    return ops
+
+
 def gen_case(rng):
     k = rng.random()
+    if k < 0.06:
+        return ops_report(rng)
+    if k < 0.20:
+        return [op_refneg(rng) for _ in range(rng.randrange(1, 3))]
     if k < 0.45:
         return [op_negotiate(rng) for _ in range(rng.randrange(1, 3))]
     if k < 0.65:
@@ -364,6 +465,10 @@ def corpus():
         [f"negotiate ver=v1 dialer={hl([LONG[0]])} listener={hl([LONG[0]])} dpay=01 lpay=02 dr=1,1,1,0,7 lw=3,0,1000"],
         [f"negotiate ver=v1 dialer=- listener={hl([a])}"],
         [f"wpair main={hx(a)} fb={hl([b, c])} sup={hl([c])} split=5"],
+        [f"report protos={show_installed([(a, [b, c]), (ab, [])])} neg={hx(n)}" for n in (c, a, ab, b"/zz")],
+        [f"refneg role={r} ver={v} dialer={hl([a, b])} listener={hl([b, c])} dpay=0102 lpay=0304 dr={one} dw={one} lr={one} lw={one} order=dl"
+         for r in ("dial", "listen") for v in ("v1", "lazy")],
+        [f"refneg role={r} ver={v} dialer={hl([a])} listener={hl([b, c])} dpay=ff lpay=0304" for r in ("dial", "listen") for v in ("v1", "lazy")],
     ]
 
 
@@ -420,6 +525,7 @@ def first_frame_is_message(b):
 
 def oracle(case, out):
     bad = []
+    wcur, wrest = None, []       # the message-based dialer of the case: name being proposed, fallbacks left
 
     def v(kind, msg, i):
         bad.append({"kind": kind, "msg": msg, "step": i, "op": case[i][:300], "out": (out[i] if i < len(out) else None)})
@@ -435,7 +541,7 @@ def oracle(case, out):
             v("panic", f"panic in {t[0]}: {o[:200]}", i)
             break
         a = kvs(t[1:])
-        if t[0] == "negotiate":
+        if t[0] in ("negotiate", "refneg"):
             r = kvs(o.split())
             dialer, listener = unhl(a.get("dialer", "-")), unhl(a.get("listener", "-"))
             dpay, lpay = a.get("dpay", "-"), a.get("lpay", "-")
@@ -457,7 +563,7 @@ def oracle(case, out):
             else:
                 if a.get("ver") == "lazy" and first_frame_is_message(unhx(dpay)):
                     continue        # documented V1Lazy pitfall, outside the property
-                if not (r.get("d", "").startswith("err:") and r.get("l", "").startswith("err:")):
+                if not (r.get("d", "").startswith("err") and r.get("l", "").startswith("err")):
                     v("disagree", f"no common name: dialer reports {r.get('d')}, listener {r.get('l')}", i)
         elif t[0] in ("dial", "listen"):
             r = kvs(o.split())
@@ -480,10 +586,58 @@ def oracle(case, out):
                     v("disagree", f"reported a protocol that was never offered: {r.get('r')}", i)
                 elif frame(name + b"\n") not in unhx(a.get("peer", "-")):
                     v("disagree", f"reported {r.get('r')} although the peer never sent that name", i)
+        elif t[0] == "wpropose":
+            if o.startswith("ok:"):
+                m_ = unhl(a.get("main", "-"))
+                wcur, wrest = (m_[0] if m_ else b""), unhl(a.get("fb", "-"))
+        elif t[0] == "wnext":
+            if (o.startswith("some:") or o.startswith("err:")) and wrest:
+                wcur, wrest = wrest[0], wrest[1:]
+        elif t[0] == "wresp":
+            if o.startswith("succeeded:") and wcur is not None:
+                got = unhx(o.split(":", 1)[1])
+                pay = unhx(t[1]) if len(t) > 1 else b""
+                if got != wcur:
+                    v("webrtc-unsafe", f"dialer proposing {wcur!r} reports success for {got!r}", i)
+                elif frame(wcur + b"\n") not in pay:
+                    v("webrtc-unsafe", f"dialer proposing {wcur!r} reports success although the peer never confirmed that name", i)
+        elif t[0] == "wlisten":
+            if o.startswith("accepted:"):
+                got = unhx(o.split(":")[1])
+                if got not in unhl(a.get("sup", "-")):
+                    v("webrtc-unsafe", f"listener accepted {got!r}, which it does not support", i)
+                elif frame(got + b"\n") not in unhx(a.get("payload", "-")):
+                    v("webrtc-unsafe", f"listener accepted {got!r}, which was never proposed", i)
+        elif t[0] == "report":
+            if o == "bad-op":
+                continue
+            pr = a.get("protos", "-")
+            installed = [] if pr in ("-", "") else [[unhx(x) for x in e.split(";")] for e in pr.split(",")]
+            neg = unhx(a.get("neg", "-"))
+            mains = [e[0] for e in installed]
+            owners = [e[0] for e in installed if neg in e[1:]]
+            r = kvs(o.split())
+            if len(set(mains)) != len(mains) or len(set(owners)) > 1:
+                continue            # ambiguous configuration: outside the property
+            if owners:
+                want = f"ok to={mains.index(owners[0])} main={hx(owners[0])} fb={hx(neg)}"
+                if not o.startswith(want + " "):
+                    v("fallback-mapping", f"{neg!r} is a fallback name of {owners[0]!r}: want '{want}', got '{o}'", i)
+            elif neg in mains:
+                want = f"ok to={mains.index(neg)} main={hx(neg)} fb=none"
+                if not o.startswith(want + " "):
+                    v("fallback-mapping", f"{neg!r} is a main name: want '{want}', got '{o}'", i)
+            elif not o.startswith("err:not-supported"):
+                v("fallback-mapping", f"{neg!r} is not installed but the report says '{o}'", i)
+            offered = len(set(mains) | {f for e in installed for f in e[1:]})
+            if r.get("n") != str(offered):
+                v("fallback-mapping", f"the connection offers {r.get('n')} names, installed are {offered}", i)
         elif t[0] == "wpair":
             main, fb, sup = unhl(a["main"]), unhl(a.get("fb", "-")), unhl(a.get("sup", "-"))
             names = main + fb
-            if not all(valid_name(n) and len(n) + 24 <= MAX_FRAME for n in names):
+            # the hypotheses of webrtc_agree: main ≤ MAX − 23 bytes (header frame in front), fallbacks ≤ MAX − 3
+            if not (all(valid_name(n) for n in names) and len(main) == 1 and len(main[0]) + 23 <= MAX_FRAME
+                    and all(len(n) + 3 <= MAX_FRAME for n in fb)):
                 continue
             want = next((p for p in names if p in sup), None)
             if want is not None:
@@ -514,9 +668,12 @@ def stats(case, out, acc):
     for op, o in zip(case, out):
         t = op.split()
         bump(acc, "op:" + t[0])
-        if t[0] == "negotiate":
+        if t[0] in ("negotiate", "refneg"):
             r = kvs(o.split())
             a = kvs(t[1:])
+            if t[0] == "refneg":
+                bump(acc, f"refneg:litep2p-{a.get('role')}:{a.get('ver')}:d={r.get('d', '?')[:3]}:l={r.get('l', '?')[:3]}")
+                continue
             bump(acc, f"negotiate:{a.get('ver')}:d={r.get('d', '?')[:3]}:l={r.get('l', '?')[:3]}")
             for k in ("dr", "dw", "lr", "lw"):
                 s = a.get(k, "-")
@@ -538,7 +695,7 @@ def stats(case, out, acc):
 
 def nontrivial(case, out):
     return any(" l=ok:" in o or "r=ok:" in o or o.startswith("proto") or "succeeded" in o or o.startswith("accepted")
-               for o in out)
+               or o.startswith("ok to=") for o in out)
 
 
 def matches_known(k, v):
